@@ -148,6 +148,12 @@ fn verify_link_signature_thresholds_step(
     // Get all links for the given step, verify them, and record the good
     // links in the HashMap.
     for (signer_key_id, link_metablock) in links {
+        // A link only counts for this step if its signer is one of the
+        // functionaries the step itself lists as authorized.
+        if !step.pub_keys.contains(signer_key_id) {
+            continue;
+        }
+
         // For each link corresponding to a step, check that the signer key was
         // authorized by checking whether it's included in the layout.
         // Only good links are stored, to verify thresholds.
